@@ -79,6 +79,27 @@ def run(ctx):
             if got is None or norm(got) != norm(scripts[nm]):
                 viol.append({"encoding_class": "quoted-body" if q_body else None, "name": nm.decode("latin-1"), "body": scripts[nm][:80].decode("latin-1"),
                              "what": "getscript(%r): client got %r, server holds %r" % (nm, None if got is None else got[:80], scripts[nm][:80])})
+        # the store CHANGES (another session deactivates and deletes the active script, activates another one, empties the store)
+        # and the same client lists again: the second listing is the server's state now, nothing of the first one
+        if not lit_names and "res=error" not in outs[-1] and "res=crash" not in outs[-1]:
+            kind = i % 3
+            if kind == 0 and active is not None:
+                del srv.scripts[active]
+                srv.active = None
+            elif kind == 1:
+                srv.active = next((x for x in srv.scripts if x != srv.active), None)
+            else:
+                srv.scripts.clear()
+                srv.active = None
+            nseg = len(s.wire.segments)
+            out = s.op("listscripts")
+            reqs.append(msref.req_op("listscripts", later=list(s.wire.segments[nseg:])))
+            outs.append(out)
+            evals += 1
+            want2 = "res=ls:%s:%s" % ("-" if srv.active is None else msref.hexor(srv.active), ",".join(msref.hexor(x) for x in srv.scripts if x != srv.active))
+            if out.split(" ")[0] != want2:
+                viol.append({"encoding_class": None, "what": "second listing on the same client after the store changed: client %s, server holds %s" % (
+                    out.split(" ")[0][:200], want2[:200]), "names": [x.decode("latin-1") for x in srv.scripts], "active": srv.active.decode("latin-1") if srv.active else None})
         if srv.log:
             viol.append({"encoding_class": None, "what": "server protocol log %r" % srv.log})
         lines += reqs
